@@ -69,6 +69,11 @@ fn data_as_table(data: &mut Buffer<BigEndian>) -> GDResult<(HashMap<String, Vec<
 
     for _ in 0 .. rows {
         for column in &column_heads {
+            // Every value takes at least its terminator: a table that announces more cells than the packet
+            // has bytes left is truncated (and must not be filled with empty strings)
+            if data.remaining_length() == 0 {
+                return Err(GDErrorKind::PacketUnderflow.context("Table announces more values than the packet holds"));
+            }
             let value = data.read_string::<Utf8Decoder>(None)?;
             table
                 .get_mut(column)
